@@ -87,7 +87,7 @@ def run_shard(ctx):
                 _, x = gen_value(rng, 2)
                 text = '[NUMBER:%s] %s' % (canon_of_float(abs(x)), rng.choice(u['spellings']))
             else:
-                n = rng.choice([0, 1, 255, 4096, 65535, 2**31 - 1, rng.randint(0, 2**31 - 1)])
+                n = rng.choice([0, 1, 255, 4096, 65535, 2**31 - 1, rng.randint(0, 2**31 - 1), 2**31, 2**32 - 1, 2**32, 2**40 + 5, 2**53, rng.randint(2**31, 2**53)])
                 if lang == 'en':
                     text = '%d to %s' % (n, rng.choice(['hex', 'octal', 'binary']))
                 else:
